@@ -26,6 +26,7 @@ def run(rep):
     R.independent_lists(rep)
     R.template_agreement(rep)
     R.separator_guard(rep)
+    R.empty_selection_means_all(rep)
     R.one_append_per_column(rep)
     rep.floor("row-index-provenance", 5)
     rep.floor("template-agreement", 8)
